@@ -339,3 +339,75 @@ impl<'h> History<'h> {
         }
     }
 }
+
+/// A history driven entirely through the `WithPositions` adapter (`find_iter(..).with_positions()`):
+/// `next` (tokens with positions), and the adapter's own `set_offset`, `position`, `set_mode`,
+/// `current_mode`, `mode_name` (trait impls that delegate to the wrapped iterator). Reported to the
+/// model with the ordinary operation names on slot `k`.
+pub fn adapter_history(scanner: &Scanner, input: &str, k: usize, n_modes: usize, r: &mut Rng, n_ops: usize, back_only: bool, out: &mut String) -> usize {
+    use scnr::MatchExtIterator;
+    let mut boundaries: Vec<usize> = input.char_indices().map(|(i, _)| i).collect();
+    boundaries.push(input.len());
+    let mut ad = scanner.find_iter(input).with_positions();
+    let mut frontier = 0usize;
+    let mut done = 0usize;
+    for _ in 0..n_ops {
+        let x = r.below(100);
+        let res = catch_unwind(AssertUnwindSafe(|| {
+            let mut o = String::new();
+            if x < 45 {
+                let _ = writeln!(o, "nextp {}", k);
+                match ad.next() {
+                    Some(me) => {
+                        frontier = frontier.max(me.end());
+                        let _ = writeln!(o, "expect tokp {} {} {} {} {} {} {}", me.token_type(), me.start(), me.end(),
+                            me.start_position().line, me.start_position().column, me.end_position().line, me.end_position().column);
+                    }
+                    None => {
+                        frontier = input.len();
+                        o.push_str("expect none\n");
+                    }
+                }
+            } else if x < 63 {
+                let cands: Vec<usize> = boundaries.iter().cloned().filter(|b| *b <= frontier || !back_only).collect();
+                let off = if !back_only && r.chance(15) { input.len() + r.below(3) } else { *r.pick(&cands) };
+                let _ = writeln!(o, "setoff {} {}", k, off);
+                PositionProvider::set_offset(&mut ad, off);
+            } else if x < 75 {
+                let cands: Vec<usize> = boundaries.iter().cloned().filter(|b| *b <= frontier).collect();
+                let off = *r.pick(&cands);
+                let _ = writeln!(o, "pos {} {}", k, off);
+                let p = PositionProvider::position(&ad, off);
+                let _ = writeln!(o, "expect pos {} {}", p.line, p.column);
+            } else if x < 85 {
+                let m = r.below(n_modes);
+                let _ = writeln!(o, "setmode {} {}", k, m);
+                ScannerModeSwitcher::set_mode(&mut ad, m);
+            } else if x < 95 {
+                let _ = writeln!(o, "curmode {}", k);
+                let _ = writeln!(o, "expect mode {}", ScannerModeSwitcher::current_mode(&ad));
+            } else {
+                let i = r.below(n_modes + 2);
+                let _ = writeln!(o, "modename {}", i);
+                match ScannerModeSwitcher::mode_name(&ad, i) {
+                    Some(n) => {
+                        let _ = writeln!(o, "expect name{}", crate::proto::cps(n));
+                    }
+                    None => o.push_str("expect name none\n"),
+                }
+            }
+            o
+        }));
+        match res {
+            Ok(o) => {
+                out.push_str(&o);
+                done += 1;
+            }
+            Err(_) => {
+                let _ = writeln!(out, "curmode {}\nexpect panic", k);
+                break;
+            }
+        }
+    }
+    done
+}
